@@ -5,7 +5,8 @@ ID=$1; PROPS=$2; TIER=${3:-quick}
 cd /verif
 [ -z "$(git -C /repo status --porcelain)" ] || { echo "/repo not clean"; exit 2; }
 git -C /repo apply /verif/seeded/$ID/patch.diff || { echo "patch does not apply"; exit 2; }
-trap 'git -C /repo checkout -- . ; echo "(repo restored)"' EXIT INT TERM
+# (evidence files are rewritten by every check: the ones written against a seeded tree are thrown away too)
+trap 'git -C /repo checkout -- . ; git -C /verif checkout -- evidence ; echo "(repo restored)"' EXIT INT TERM
 for P in $(echo $PROPS | tr , ' '); do
   s=$(date +%s)
   ./verif check $P --tier $TIER > .work/seed-$ID-$P.log 2>&1; rc=$?
